@@ -41,9 +41,12 @@ def gen_plan(rng, tier, idx, opts):
     pos = 1
     nops = rng.randint(1, 40)
     far = rng.random() < 0.5
+    bursty = rng.random() < 0.25 and L * nshape <= 16
     for i in range(nops):
         r = rng.random()
-        limit = int(4.5e12 / nops)          # keeps legitimate float accumulation below 1e-3 sample
+        # every call rounds the generator's clock once (<= eps*position samples): (#calls) x position <= 4.5e12 keeps
+        # the LEGITIMATE accumulation below 1e-3 sample.  Plans with bursts make up to ~15 000 calls: they stay below 1e8.
+        limit = int(1e8) if bursty else int(4.5e12 / nops)
         if r < 0.3 and pos < limit:
             if far and rng.random() < 0.5:
                 n = int(10 ** rng.uniform(3, 10))
@@ -54,7 +57,7 @@ def gen_plan(rng, tier, idx, opts):
             pos += n
         elif r < 0.36:
             ops.append({"op": "get"})
-        elif r < 0.39 and L * nshape <= 16:
+        elif r < 0.46 and bursty and pos < limit // 2 and sum(1 for o in ops if o["op"] == "burst") < 3:
             # a long run of tiny requests: what a streaming user does, and where per-call drift would accumulate
             cnt = int(10 ** rng.uniform(2, 3.7))
             nn = rng.choice([1, 1, 2, 3])
